@@ -46,9 +46,11 @@ pub fn gen(s: &mut Src) -> GenDoc {
                     fonts.push(g.add(dict(vec![("Type", name("Font")), ("Subtype", name("TrueType")), ("BaseFont", name("ABCDEF+Test")), ("FirstChar", Obj::Int(32)), ("LastChar", Obj::Int(35)),
                         ("Widths", ints(&[250, 300, 350, 400])), ("FontDescriptor", rf(fd)), ("ToUnicode", rf(tu)), ("Encoding", name("WinAnsiEncoding"))])));
                 } else {
-                    let cid = g.add(dict(vec![("Type", name("Font")), ("Subtype", name("CIDFontType2")), ("BaseFont", name("Test")), ("CIDSystemInfo", dict(vec![("Registry", st("Adobe")), ("Ordering", st("Identity")), ("Supplement", Obj::Int(0))])),
-                        ("FontDescriptor", rf(fd)), ("DW", Obj::Int(1000)), ("W", arr(vec![Obj::Int(1), arr(vec![Obj::Int(500), Obj::Real(600.5)])])), ("CIDToGIDMap", name("Identity"))]));
-                    fonts.push(g.add(dict(vec![("Type", name("Font")), ("Subtype", name("Type0")), ("BaseFont", name("Test-Identity-H")), ("Encoding", name("Identity-H")), ("DescendantFonts", arr(vec![rf(cid)])), ("ToUnicode", rf(tu))])));
+                    let cid_dict = dict(vec![("Type", name("Font")), ("Subtype", name("CIDFontType2")), ("BaseFont", name("Test")), ("CIDSystemInfo", dict(vec![("Registry", st("Adobe")), ("Ordering", st("Identity")), ("Supplement", Obj::Int(0))])),
+                        ("FontDescriptor", rf(fd)), ("DW", Obj::Int(1000)), ("W", arr(vec![Obj::Int(1), arr(vec![Obj::Int(500), Obj::Real(600.5)])])), ("CIDToGIDMap", name("Identity"))]);
+                    // the descendant font may be written inline: an array whose element is a direct dictionary that holds references
+                    let desc = if s.alt(2, &["descendant-indirect", "descendant-inline"]) == 1 { cid_dict } else { rf(g.add(cid_dict)) };
+                    fonts.push(g.add(dict(vec![("Type", name("Font")), ("Subtype", name("Type0")), ("BaseFont", name("Test-Identity-H")), ("Encoding", name("Identity-H")), ("DescendantFonts", arr(vec![desc])), ("ToUnicode", rf(tu))])));
                 }
             }
         }
@@ -143,7 +145,7 @@ pub fn gen(s: &mut Src) -> GenDoc {
     // reference cycles kill the importer (one known root cause); they get ~10% of the cases so that the rest stays covered
     let cycle = if s.draw(10) == 9 { 1 + s.draw(4) } else { 0 };
     let other_mode = if cycle > 0 { s.label(["cycle-via-other", "cycle-via-other-self", "cycle-via-other-ring", "cycle-via-other-page-backpointer"][cycle as usize - 1]); 6 + cycle as usize }
-        else { [0usize, 1, 2, 3, 4, 5, 6, 11][s.alt(4, &["no-other", "other-scalars", "other-group-dict", "other-ref", "other-shared-ref", "other-stream-ref", "metadata-stream", "cycle-via-annot"])] };
+        else { [0usize, 1, 2, 3, 4, 5, 6, 11, 12][s.alt(4, &["no-other", "other-scalars", "other-group-dict", "other-ref", "other-shared-ref", "other-stream-ref", "metadata-stream", "cycle-via-annot", "other-refs-nested-in-array"])] };
     let shared_other = if other_mode == 4 { Some(g.add(dict(vec![("Private", st("shared by all pages")), ("Data", rf(0))]))) } else { None };
     if let Some(n) = shared_other { let payload = g.add(stream(vec![], b"payload")); if let Some((_, o)) = g.objs.iter_mut().find(|(k, _)| *k == n) { o.set("Data", rf(payload)); } }
     for (pi, &pn) in page_objs.iter().enumerate() {
@@ -194,6 +196,10 @@ pub fn gen(s: &mut Src) -> GenDoc {
             4 => d.push(("PieceInfo", rf(shared_other.unwrap()))),
             5 => { let t = g.add(stream(vec![("Width", Obj::Int(1)), ("Height", Obj::Int(1)), ("BitsPerComponent", Obj::Int(8)), ("ColorSpace", name("DeviceGray"))], &[7])); d.push(("Thumb", rf(t))); }
             6 => { let m = g.add(stream(vec![("Type", name("Metadata")), ("Subtype", name("XML"))], b"<x:xmpmeta xmlns:x='adobe:ns:meta/'/>")); d.push(("Metadata", rf(m))); }
+            12 => { // references that sit below the direct elements of an array (array -> dictionary -> reference, array -> array -> reference)
+                let x = g.add(dict(vec![("Tag", st("nested x"))])); let y = g.add(stream(vec![], b"nested y"));
+                d.push(("PieceInfo", dict(vec![("App", dict(vec![("Private", arr(vec![dict(vec![("Inner", rf(x))]), arr(vec![Obj::Int(1), arr(vec![rf(y)])]), Obj::Int(7)]))]))])));
+            }
             7 => { let a = g.reserve(); let b = g.reserve(); g.put(a, dict(vec![("Private", rf(b)), ("Tag", st("a"))])); g.put(b, dict(vec![("Back", rf(a)), ("Tag", st("b"))])); d.push(("PieceInfo", rf(a))); }
             8 => { let a = g.reserve(); g.put(a, dict(vec![("Self", rf(a)), ("Tag", st("self"))])); d.push(("PieceInfo", rf(a))); }
             9 => { // outline-like ring: /Parent back-pointers and /Next /Prev
